@@ -73,9 +73,10 @@ def unhexlify : Bytes → Except Err Bytes
 
 def asciihexdecode (data : Bytes) : Except Err Bytes :=
   let d := data.filter (fun b => !isWs b)          -- bws_re.sub(b"", data)
-  let t := d.takeWhile (fun b => b != 62)          -- data[:data.find(b">")]
+  -- `AHX_EOD` (`b">"`), `ahxNeedsPad` (`idx % 2 == 1`), `AHX_PAD` (`b"0"`) are translated from ascii85.py
+  let t := d.takeWhile (fun b => [b] != AHX_EOD)   -- data[:data.find(b">")]
   if t.length < d.length then
-    unhexlify (if t.length % 2 == 1 then t ++ [48] else t)
+    unhexlify (if ahxNeedsPad t.length then t ++ AHX_PAD else t)
   else unhexlify d
 
 /-! ## ASCII85Decode -/
@@ -133,10 +134,11 @@ def a85loop : List Nat → Bytes → Except Err (Bytes × List Nat)
     else .error .valueError                                -- 'Non-Ascii85 digit found'
 
 def a85decode (b : Bytes) : Except Err Bytes :=
-  match a85loop [] (b ++ [117, 117, 117, 117]) with
+  -- `A85_PAD` (`b'u' * 4`) and `a85Padding` (`4 - len(curr)`) are translated from CPython's base64.py
+  match a85loop [] (b ++ A85_PAD) with
   | .error e => .error e
   | .ok (res, curr) =>
-    let padding := 4 - curr.length
+    let padding := a85Padding curr.length
     .ok (if padding != 0 then res.take (res.length - padding) else res)
 
 def ascii85decode (data : Bytes) : Except Err Bytes :=
